@@ -208,6 +208,42 @@ let strip_prefix (bytes : string) (rest : string list) : string =
   | [pre] -> let n = String.length (string_of_hex pre) in String.sub bytes n (String.length bytes - n)
   | _ -> bytes
 
+(* ---------- mapping glue model: Go's math library answers through the `vrun --libm` coprocess ---------- *)
+let libm_proc : (in_channel * out_channel) option ref = ref None
+let libm_call (fn : string) (args : M.f64 list) : M.f64 =
+  let (ic, oc) = match !libm_proc with
+    | Some p -> p
+    | None ->
+      let vrun = try Sys.getenv "VRUN" with Not_found -> Filename.concat (Filename.dirname Sys.executable_name) "../.work/vrun" in
+      let p = Unix.open_process (vrun ^ " --libm") in libm_proc := Some p; p in
+  let hex v = Z.format "%016x" (to_zn (M.bits_of_f64 v)) in
+  output_string oc (fn ^ " " ^ String.concat " " (List.map hex args) ^ "\n"); flush oc;
+  f64_of_hex (String.trim (input_line ic))
+let the_libm : M.libm =
+  { M.l_log = (fun x -> libm_call "log" [x]); M.l_exp = (fun x -> libm_call "exp" [x]); M.l_exp2 = (fun x -> libm_call "exp2" [x]);
+    M.l_log2 = (fun x -> libm_call "log2" [x]); M.l_pow = (fun x y -> libm_call "pow" [x; y]); M.l_cbrt = (fun x -> libm_call "cbrt" [x]);
+    M.l_sqrt = (fun x -> libm_call "sqrt" [x]); M.l_floor = (fun x -> libm_call "floor" [x]) }
+let mappings : (string, M.gmap) Hashtbl.t = Hashtbl.create 16
+let mkind_of = function "log" -> M.MLog | "lin" -> M.MLin | "cub" -> M.MCub | _ -> raise Unsupported
+(* result of a mapping spec in the model: Ok gmap | Error class *)
+let model_mapping (spec : string) : (M.gmap, string) result =
+  match String.split_on_char ':' spec with
+  | [k; "a"; h] -> (match M.with_accuracy the_libm (mkind_of k) (f64_of_hex h) with Some m -> Ok m | None -> Error "err bad-accuracy")
+  | [k; "g"; g; o] -> (match M.with_gamma the_libm (mkind_of k) (f64_of_hex g) (f64_of_hex o) with Some m -> Ok m | None -> Error "err bad-gamma")
+  | _ -> raise Unsupported
+(* compare the model's mapping with the `# map` line of the implementation, field by field, bit for bit *)
+let map_diff (m : M.gmap) side : string =
+  match side_find side "map" with
+  | None -> " MODEL-MAP-DIFFERS no-map-line"
+  | Some fs ->
+    let chk name v = if field fs name = xstr v then [] else [name] in
+    let kind = (match m.M.gm_kind with M.MLog -> "log" | M.MLin -> "lin" | M.MCub -> "cub") in
+    let d = (if field fs "kind" = kind then [] else ["kind"]) @ chk "gamma" m.M.gm_gamma @ chk "off" m.M.gm_off
+            @ chk "acc" (M.gm_accuracy the_libm m) @ chk "min" m.M.gm_min @ chk "max" m.M.gm_max in
+    if d = [] then "" else " MODEL-MAP-DIFFERS " ^ String.concat "," d
+let mapid_of (m : M.gmap) : M.mapid =
+  { M.mk_kind = n_of (Z.of_int (match m.M.gm_kind with M.MLog -> 0 | M.MLin -> 1 | M.MCub -> 3)); M.mk_gamma = m.M.gm_gamma; M.mk_off = m.M.gm_off }
+
 let exec (toks : string list) (side : string list) (impl_result : string) : string =
   match toks with
   (* ----- stores ----- *)
@@ -305,7 +341,8 @@ let exec (toks : string list) (side : string list) (impl_result : string) : stri
         | None -> Hashtbl.remove sketches k; raise Unsupported
         | Some (m, mn, mx) ->
           Hashtbl.replace specs spec (m, mn, mx);
-          Hashtbl.replace sketches k (new_reg mn mx (Some (M.sk_new m (parse_kind pk) (parse_kind nk) exact))); "ok"))
+          Hashtbl.replace sketches k (new_reg mn mx (Some (M.sk_new m (parse_kind pk) (parse_kind nk) exact)));
+          "ok" ^ (match model_mapping spec with Ok gm -> map_diff gm side | Error _ -> " MODEL-MAP-DIFFERS refused")))
   | "kadd" :: k :: v :: rest ->
     let (g, s) = get_sk k in
     let (c, unit) = match rest with [] -> (f64_of_hex "3ff0000000000000", true) | [w] -> (f64_of_hex w, false) | _ -> raise Unsupported in
@@ -389,9 +426,35 @@ let exec (toks : string list) (side : string list) (impl_result : string) : stri
        let mt = mtable_of g side in
        let mm r = match r with M.ROk v -> fstr_v v | M.RErr _ -> "-" | M.RPanic -> "panic" in
        Printf.sprintf "count=%s sum=%s min=%s max=%s" (fstr_f (M.su_count t)) (xstr (M.su_get_sum t)) (mm (M.sk_min mt s)) (mm (M.sk_max mt s)))
-  (* mapping constructors feed the spec table *)
-  | ["mnew"; _; spec] ->
-    (match side_map side with Some x -> Hashtbl.replace specs spec x | None -> ()); raise Unsupported
+  (* ----- mappings: bit-exact glue model ----- *)
+  | ["mnew"; r; spec] ->
+    (match side_map side with Some x -> Hashtbl.replace specs spec x | None -> ());
+    (match model_mapping spec with
+     | Ok m -> Hashtbl.replace mappings r m; "ok" ^ map_diff m side
+     | Error e -> Hashtbl.remove mappings r; e)
+  | ["midx"; r; v] -> Z.to_string (to_z (M.gm_index the_libm (Hashtbl.find mappings r) (f64_of_hex v)))
+  | ["mval"; r; i] -> xstr (M.gm_value the_libm (Hashtbl.find mappings r) (z_of_tok i))
+  | ["mlow"; r; i] -> xstr (M.gm_lower the_libm (Hashtbl.find mappings r) (z_of_tok i))
+  | ["macc"; r] -> xstr (M.gm_accuracy the_libm (Hashtbl.find mappings r))
+  | ["mrange"; r] -> let m = Hashtbl.find mappings r in Printf.sprintf "min=%s max=%s" (xstr m.M.gm_min) (xstr m.M.gm_max)
+  | ["meq"; r; r2] -> if M.map_equals (mapid_of (Hashtbl.find mappings r)) (mapid_of (Hashtbl.find mappings r2)) then "1" else "0"
+  | ["menc"; b; r] ->
+    let m = Hashtbl.find mappings r in
+    let mb = string_of_bytes (M.enc_mapping (mapid_of m)) and ib = side_bytes side in
+    Hashtbl.replace bytesr b ib; if mb = ib then "ok" else "ok MODEL-BYTES-DIFFER " ^ hex_of_string mb
+  | ["mdec"; r; b] ->
+    (match bytes_of_string (get_bytes b) with
+     | [] -> "err eof"
+     | f :: rest ->
+       (match M.dec_mapping f rest with
+        | M.DOk (id, rest') ->
+          let k = (match Z.to_int (to_zn id.M.mk_kind) with 0 -> M.MLog | 1 -> M.MLin | _ -> M.MCub) in
+          (match M.with_gamma the_libm k id.M.mk_gamma id.M.mk_off with
+           | Some m -> Hashtbl.replace mappings r m;
+             Printf.sprintf "ok %d%s" (1 + List.length rest - List.length rest') (map_diff m side)
+           | None -> "err bad-gamma")
+        | M.DErr e -> "err " ^ err_name e
+        | M.DPanic -> "panic"))
   (* ----- datasets ----- *)
   | ["dnew"; d] -> Hashtbl.replace datasets d M.d_new; "ok"
   | ["dadd"; d; v] -> Hashtbl.replace datasets d (M.d_add0 (Hashtbl.find datasets d) (qc_of_hex v)); "ok"
@@ -434,7 +497,7 @@ let () =
          let toks = List.filter (fun t -> t <> "") (String.split_on_char ' ' line) in
          (match toks with
           | "case" :: _ ->
-            ignore (next_tr ()); reset_regs ();
+            ignore (next_tr ()); reset_regs (); Hashtbl.reset mappings;
             Buffer.add_string out (String.concat " " toks); Buffer.add_char out '\n'
           | _ ->
             let rec chunk acc = match next_tr () with
